@@ -207,7 +207,32 @@ def _elements(v):
     return list(v.elts) if isinstance(v, (ast.List, ast.Tuple, ast.Set)) else [v]
 
 
+_IN_PROGRESS = set()
+
+
 def _value_classes(repo, f, expr, at=None, depth=0):
+    if isinstance(expr, ast.Name):
+        k = ('v', f.qualname, expr.id, id(at) if at is not None and _enclosing_for(at, f, expr.id) is not None else 0)
+        if k in _IN_PROGRESS:
+            return []
+        _IN_PROGRESS.add(k)
+        try:
+            return _value_classes_1(repo, f, expr, at, depth)
+        finally:
+            _IN_PROGRESS.discard(k)
+    return _value_classes_1(repo, f, expr, at, depth)
+
+
+def _enclosing_for(at, f, name):
+    p = getattr(at, '_parent', None)
+    while p is not None and p is not f.node:
+        if isinstance(p, ast.For) and isinstance(p.target, ast.Name) and p.target.id == name:
+            return p
+        p = getattr(p, '_parent', None)
+    return None
+
+
+def _value_classes_1(repo, f, expr, at=None, depth=0):
     """classes an expression may denote inside function f (None: undetermined; raises DynamicTargets when the value is
     computed from names at run time).  Follows loop variables to the elements of what they iterate over, locals to their
     definitions (list displays, append/extend), and calls of package functions to what they return / yield."""
@@ -278,6 +303,19 @@ def _value_classes(repo, f, expr, at=None, depth=0):
 
 
 def _iter_classes(repo, f, it, at, depth=0):
+    if isinstance(it, ast.Name):
+        k = ('i', f.qualname, it.id)
+        if k in _IN_PROGRESS:
+            return []
+        _IN_PROGRESS.add(k)
+        try:
+            return _iter_classes_1(repo, f, it, at, depth)
+        finally:
+            _IN_PROGRESS.discard(k)
+    return _iter_classes_1(repo, f, it, at, depth)
+
+
+def _iter_classes_1(repo, f, it, at, depth=0):
     """classes of the *elements* of an iterable expression."""
     if depth > 8:
         return None
@@ -380,6 +418,14 @@ def r_table_closed(ctx, repo, groups):
     for label, universes, exact, multi in groups:
         for q in universes:
             cls = repo.cls(q)
+            for (dm, dst, dclasses) in rm.heap.dynamic:
+                hit = [k for (k, wn) in dclasses if k is None or k in cls.mro_classes() or cls in getattr(k, 'mro_classes', lambda: [])()]
+                if hit or not dclasses:
+                    rule.fail('%s|dynamic-registration|%s' % (q, dm.name), dm.rel, dst.lineno, q,
+                              'for %s in %s' % (norm(dst.target), norm(dst.iter)[:60]),
+                              'the tables of %s (%s) are filled by a loop over %s, computed when the module is imported: the '
+                              'effective table is whatever that expression yields (e.g. every method whose name matches), not the '
+                              'documented closed set' % (q, label, norm(dst.iter)[:60]), universe=q)
             for reg, expected in (('yaml_constructors', exact), ('yaml_multi_constructors', multi)):
                 tbl = rm.heap.table(cls, reg)
                 keys = set(tbl)
